@@ -43,6 +43,8 @@ def run(pid, mod, program, chk, repo, extra):
             for name, r in sorted(res.items()):
                 if r.get(pid, {}).get("rc") != 1:
                     continue
+                if all(k.startswith("rule-cannot-analyse") for k in r[pid].get("keys", [])):
+                    continue  # recorded while a rule was failing to run: not a catch to hold on to
                 mp = os.path.join(VERIF, "seeded", name, "meta.json")
                 if os.path.exists(mp) and json.load(open(mp)).get("property") != pid:
                     continue  # only the changes aimed at this property are its regression set (plus the self-tests)
